@@ -41,6 +41,31 @@ mod verif_kani {
         kani::cover!(before.get(&author(b)).is_none() && n == 2);
     }
 
+    /// same contract, concrete author ids (1, 2 present; 1 or 3 inserted), symbolic timestamps only
+    #[kani::proof]
+    #[kani::unwind(34)]
+    fn heads_insert_max_concrete_authors() {
+        let t0: u64 = kani::any();
+        let t1: u64 = kani::any();
+        let t: u64 = kani::any();
+        let mut heads = AuthorHeads::default();
+        heads.heads.insert(author(1), t0);
+        heads.heads.insert(author(2), t1);
+        let mut h1 = heads.clone();
+        h1.insert(author(1), t);
+        assert!(h1.get(&author(1)) == Some(if t0 > t { t0 } else { t }));
+        assert!(h1.get(&author(2)) == Some(t1));
+        assert!(h1.len() == 2);
+        let mut h3 = heads.clone();
+        h3.insert(author(3), t);
+        assert!(h3.get(&author(3)) == Some(t));
+        assert!(h3.get(&author(1)) == Some(t0));
+        assert!(h3.get(&author(2)) == Some(t1));
+        assert!(h3.len() == 3);
+        kani::cover!(t > t0);
+        kani::cover!(t < t0);
+    }
+
     fn two_heads() -> (AuthorHeads, [(u8, u64); 2], usize) {
         let b0: u8 = kani::any();
         let b1: u8 = kani::any();
